@@ -119,7 +119,7 @@ def main():
     na = [{"property_id": k, "reason": v} for k, v in sorted({**not_applicable, **pending}.items())]
     m = {
         "version": 1,
-        "setup_cmd": f"cd /verif && mkdir -p bin evidence replays && {ENV} go build -o bin/check ./cmd/check && {ENV} go build -o bin/rewrite ./cmd/rewrite",
+        "setup_cmd": f"cd /verif && mkdir -p bin evidence replays && {ENV} go build -o bin/check ./cmd/check && {ENV} go build -o bin/rewrite ./cmd/rewrite && (go build -race std; GOTOOLCHAIN=local go1.26.8 build std; true)",
         "hooks": {
             "guard": "none in /repo: all instrumentation (map-order, clock, step-counter and yield seams) is applied by /verif/cmd/rewrite to a scratch copy of /repo's working tree at check time; /repo carries no hook code",
             "enable": "bin/check copies /repo to $TMPDIR/verif-scratch/<id>-<pid>, runs bin/rewrite on the copy, adds /verif/harness as package seehuhn.de/go/sfnt/zzverif/... and builds the worker there",
